@@ -924,7 +924,7 @@ def lmer_lemmas(F, rep, which=None, ktypes=None):
         if N > 3 and rep.tier != "thorough":
             # quick tier: capacities 4-6 (lengths >= 128 need the whole length byte) get the constructor / length lemmas only
             def want(x, which=which):
-                return x == "new" and (which is None or x in which)
+                return x in ("new", "from_slice") and (which is None or x in which)
 
         if want("new"):
             def f_max():
@@ -959,6 +959,15 @@ def lmer_lemmas(F, rep, which=None, ktypes=None):
                         return
                 rep.holds("L-lmer-new", "%s/len-full" % tag, "len() depends on the length byte only")
             guarded(rep, "L-lmer-new", "%s/len-full" % tag, "len", f_len)
+
+        if want("from_slice"):
+            for ell in sorted({0, 1, 2, min(5, ML), max(ML - 5, 0), max(ML - 4, 0), max(ML - 3, 0), max(ML - 2, 0), ML - 1, ML}):
+                def f(ell=ell):
+                    src = Ref(Cell(Arr(byte_seq("s", ell)), "bases"), (), 0, ell)
+                    r, _ = run_inst(F, lt.key("Vmer", "from_slice"), [src])
+                    expect_words(rep, "L-lmer-new", "%s/from_slice/len=%d" % (tag, ell), lt.words_of(r), lt.words("s", ell, ell),
+                                 "from_slice of %d bases holds exactly those bases and the length byte %d" % (ell, ell))
+                guarded(rep, "L-lmer-new", "%s/from_slice/len=%d" % (tag, ell), "from_slice", f)
 
         if want("get"):
             for p in range(ML):
